@@ -279,8 +279,10 @@ Inductive rform :=
 | FSliceY (x : Z) (lo hi : option Z)               (* grid[x, lo:hi] *)
 | FSliceX (lo hi : option Z) (y : Z)               (* grid[lo:hi, y] *)
 | FSliceXY (xlo xhi ylo yhi : option Z)            (* grid[a:b, c:d] *)
-| FCellList (l : list coord) (single : bool).      (* get_cell_list_contents / iter_cell_list_contents; single =
+| FCellList (l : list coord) (single : bool)       (* get_cell_list_contents / iter_cell_list_contents; single =
                                                       one coordinate passed as a bare tuple (accept_tuple_argument) *)
+| FAdj (p : coord)                                 (* grid.torus_adj(p): the wrapped coordinate, or the rejection *)
+| FAdj2d (p : coord).                              (* _HexGrid.torus_adj_2d(p): unconditional wrap (hex neighbourhoods) *)
 
 Definition view_col (c : cfg) (s : state) (x : Z) : option (list (list agent)) :=
   if (- c_w c <=? x) && (x <? c_w c)
@@ -309,6 +311,8 @@ Definition view_slice_xy (c : cfg) (s : state) (xlo xhi ylo yhi : option Z) : li
   flat_map (fun x => map (fun y => grid s (x, y)) (pyslice (c_h c) ylo yhi)) (pyslice (c_w c) xlo xhi).
 Definition view_cell_list (s : state) (l : list coord) : list agent := flat_map (grid s) l.
 
+Definition torus_adj_2d (c : cfg) (p : coord) : coord := (fst p mod c_w c, snd p mod c_h c).
+
 Definition obs_cells (l : list (list agent)) : list Z := flat_map obs_cell l.
 
 Definition view_form (c : cfg) (s : state) (f : rform) : res :=
@@ -324,6 +328,8 @@ Definition view_form (c : cfg) (s : state) (f : rform) : res :=
   | FCellList l single =>
     if forallb (fun p => negb (out_of_bounds c p)) l && (negb single || (Z.of_nat (length l) =? 1))
     then let r := view_cell_list s l in Ok (b2z (has_dup r) :: zsort r) else Skip
+  | FAdj p => match torus_adj c p with Some q => Ok [fst q; snd q] | None => Err E_OOB end
+  | FAdj2d p => let q := torus_adj_2d c p in Ok [fst q; snd q]
   end.
 
 (* ---- property layers (PropertyLayer objects attached to the grid): they live beside the grid state ---- *)
